@@ -10,6 +10,8 @@ KEYS = ["a", "b", "c", "a.b", "", "k_1"]
 
 def gen_leaf(r):
     k = r.random()
+    if k < 0.1:
+        return r.choice([0, 1])
     if k < 0.25:
         return r.randrange(-3, 100)
     if k < 0.4:
@@ -44,6 +46,10 @@ def mutate_like(r, base, depth, keys=KEYS):
             bv = base[k]
             if isinstance(bv, dict) and r.random() < 0.7 and depth > 0:
                 d[k] = mutate_like(r, bv, depth - 1, keys)
+            elif bv in (0, 1, True, False, 1.0) and not isinstance(bv, dict) and r.random() < 0.5:
+                # equal under ==, different value: 1 / True / 1.0, 0 / False
+                d[k] = r.choice([x for x in ([1, True, 1.0] if bv == 1 else [0, False, 0.0])
+                                 if type(x) is not type(bv)])
             elif r.random() < 0.5 and depth > 0:
                 d[k] = gen_dict(r, depth - 1, 3, keys)
             else:
